@@ -9,6 +9,7 @@
 
 mod builder;
 mod data;
+mod forms;
 mod layout;
 mod oracle;
 
@@ -28,6 +29,8 @@ pub enum Kern {
     Linear,
     Gaussian(f64),
     Poly(f64, f64),
+    /// Gaussian(eps) restricted to the symmetrised k-nearest-neighbour graph (`KernelType::Sparse(k)`)
+    SparseGaussian(f64, usize),
 }
 
 #[derive(Clone, Debug, Serialize, Deserialize, PartialEq)]
@@ -132,6 +135,7 @@ pub(crate) fn with_kernel<F: SvmFloat, T>(p: SvmParams<F, T>, k: &Kern) -> SvmPa
         Kern::Linear => p.linear_kernel(),
         Kern::Gaussian(e) => p.gaussian_kernel(F::cast(*e)),
         Kern::Poly(c, d) => p.polynomial_kernel(F::cast(*c), F::cast(*d)),
+        Kern::SparseGaussian(e, k) => p.with_kernel_params(linfa_kernel::Kernel::params().kind(linfa_kernel::KernelType::Sparse(*k)).method(linfa_kernel::KernelMethod::Gaussian(F::cast(*e)))),
     }
 }
 
@@ -206,7 +210,7 @@ fn fit_variant<F: SvmFloat>(case: &Case, shrink: bool, pr: bool) -> FitOut {
                         Problem::NuSvc { nu } => p.nu_weight(F::cast(nu)),
                         _ => unreachable!(),
                     };
-                    let m = p.fit(&ds).map_err(|e| e.to_string())?;
+                    let m = p.fit(&ds).map_err(|e| format!("{} [{:?}]", e, e))?;
                     let mut o = observe(&m, &xt, &xp);
                     let lt: Array1<Pr> = m.predict(&xt);
                     let lp: Array1<Pr> = m.predict(&xp);
@@ -282,6 +286,27 @@ fn run_typed<F: SvmFloat>(case: &Case, v: &mut Vec<Violation>) -> Counters {
                     if pr && e.to_lowercase().contains("platt") {
                         // the Platt calibration (linfa core, not part of this property) did not converge
                         cnt.platt_errors += 1;
+                        // judged against the uncalibrated model of the same parameters: when its decision values are
+                        // finite and spread over more than 5 % of the margin unit, Platt's sigmoid fit has something to
+                        // calibrate and a failure leaves the user without a model
+                        match plain[si].as_ref() {
+                            Some(o) if env.in_domain() => {
+                                let (mn, mx) = o.dec_train.iter().fold((f64::INFINITY, f64::NEG_INFINITY), |(a, b), &d| (a.min(d), b.max(d)));
+                                let finite = o.dec_train.iter().all(|d| d.is_finite());
+                                let np = case.labels.iter().filter(|&&l| l).count();
+                                if finite && np > 0 && np < case.labels.len() && mx - mn >= 0.05 {
+                                    let sig = if case.float == "f32" && e.contains("LineSearchNotConverged") { "pr.fit.platt_line_search_fails_in_f32" } else { "pr.fit.platt_failed_on_calibratable_data" };
+                                    v.push(Violation::new(
+                                        format!("{}.{}", pre, sig),
+                                        format!("Svm<{}, Pr> fit returned Err({}) although the uncalibrated model of the same parameters has decision values in [{:.4}, {:.4}] ({} positives of {}); no model is returned", case.float, e, mn, mx, np, case.labels.len()),
+                                        cj(&at),
+                                    ));
+                                } else {
+                                    cnt.platt_degenerate += 1;
+                                }
+                            }
+                            _ => cnt.platt_degenerate += 1,
+                        }
                     } else {
                         v.push(Violation::new(format!("{}.fit.error", pre), format!("fit of an in-domain configuration returned Err({})", e), cj(&at)));
                     }
@@ -304,6 +329,8 @@ fn run_case_inner(case: &Case, v: &mut Vec<Violation>) -> Counters {
     match (case.family.as_str(), case.float.as_str()) {
         ("layout", "f32") => layout::run_typed::<f32>(case, v),
         ("layout", "f64") => layout::run_typed::<f64>(case, v),
+        ("forms", "f32") => forms::run_typed::<f32>(case, v),
+        ("forms", "f64") => forms::run_typed::<f64>(case, v),
         ("builder", "f32") => builder::run_typed::<f32>(case, v),
         ("builder", "f64") => builder::run_typed::<f64>(case, v),
         ("", "f32") => run_typed::<f32>(case, v),
@@ -384,6 +411,11 @@ fn main() {
          (x calibrated for classification): the records are given to fit as standard-layout view, column-major owned array, transposed view of a feature-major array, \
          reversed-row view of a reversed copy, every-second-row view of an array whose other rows are NaN, and the standard-layout model is applied (predict, weighted_sum) to the \
          training and new records in the same five layouts plus single samples held in strided / reversed 1-D buffers; the same cases also call predict_inplace into poisoned / reused buffers and the single-sample predict forms. \
+         Feature-count family: jittered sub-unit lattices (pitch 0.125) with d in {{4,5,6,7,9}} features, n = 20 (thorough also 40), classification / unlabelled / regression, all five kernels, 1-3 parameter points per problem type, (eps, float) in {{(1e-3,f64),(1e-7,f64),(1e-3,f32)}}, through all KKT oracles; \
+         plus a sparse Gaussian(.5) kernel on the symmetrised 3-nearest-neighbour graph (d = 4, 7; reference = brute-force neighbour graph). \
+         Calling-form family: 7 (thorough 10) datasets incl. a one-feature classification set x linear / Gaussian(.5) / polynomial(1,3) x 1-2 parameter points x f32 / f64 x shrinking off/on (x calibrated): fit through checked / unchecked params, owned / view / tuple-into datasets, targets as reversed and stepped views, counted targets, with_labels, map_targets, into_single_target, reversed feature axis; \
+         predict through &view, owned records, owned dataset, &dataset, dataset view, reversed feature axis and one-row batches. \
+         Class-ratio family (for the calibrated models): jittered lattices with n = 20 (thorough also 40) and 20 %, 33 %, 65 %, 67 %, 80 %, 95 % positives (both orientations of 1:4 and 1:2), linear / Gaussian(.5) / polynomial(1,3), C-SVC C in {{1,100}} and weights (1,10), nu-SVC nu = .1, f32 / f64, through all oracles. \
          Builder family: on overlapping / cloud / noisy-line n = 12, for 9 groups of real setters (kernel setter, problem-type setter, eps, shrinking, platt) every permutation, plus for every decoy (other kernel, other problem type incl. the deprecated c_eps / nu_eps, other eps / shrinking / platt) every permutation in which the decoy precedes the setter that overwrites it; constructors params() / new() / default(); f64 and every fourth sequence in f32.",
         sizes
     ));
@@ -391,12 +423,14 @@ fn main() {
     ctx.assume("KKT tolerance tau_i = 2 x solver eps (x 1/r for nu-SVC, r recovered from the published alpha as nu*n/sum|alpha|) + rounding, rounding = (4*nvars + 4*iterations) * eps_machine * (sum_j U_j |K_ij| + |p_i| + |rho| + 1) with U_j the box bound of variable j (covers the incrementally updated gradient in the subject's float type); a sample whose tau exceeds a quarter of the margin unit (1; eps_loss for regression) is counted indeterminate, not judged");
     ctx.assume("a coefficient is 'zero' iff published alpha == 0 exactly (the solver's own notion), 'at bound' iff |alpha| >= U*(1-1e-9 [f64] / 1e-4 [f32]) (then only the inequality is demanded), else free; box tolerance 16*eps_machine*U; equality constraints within 4*(nvars+iterations)*eps_machine*max U");
     ctx.assume("weighted_sum / predict vs reference: relative 1e-9 (f64) / 1e-4 (f32) of sum_j |alpha_j| |K|(x_j,x); labels of samples whose reference decision value is inside that band are indeterminate");
-    ctx.assume("nu-SVC with nu*n/2 > min(n+, n-) has an empty feasible set: counted out_of_domain (only termination / no panic demanded); Platt calibration failures (PlattError) are counted, not judged (linfa core, not part of this property)");
+    ctx.assume("nu-SVC with nu*n/2 > min(n+, n-) has an empty feasible set: counted out_of_domain (only termination / no panic demanded); a Platt calibration failure (Err(SvmError::Platt(..)) of a Svm<_,Pr> fit) is a violation when the uncalibrated model of the same parameters has finite decision values spread over at least 5 % of the margin unit (max - min >= 0.05) and both classes are present; otherwise (collapsed or non-finite decision values, empty feasible set) it is counted as degenerate and not judged");
     ctx.assume("nu-SVC whose margin r (read from the derived Debug output, the only place it is published) is zero at solver precision, |r| <= 2*eps + rounding, is degenerate (the nu-reduced convex hulls of the classes intersect, w = 0, the 1/r scaling is undefined; libsvm behaves the same): counted indeterminate, not judged");
     ctx.assume("nu-SVR oracle: |alpha_i| <= C, sum alpha_i = 0, a common tube half-width e >= 0 must exist (free: sign(alpha_i)(y_i-f_i) = e, bounded: >= e, zero: |y_i-f_i| <= e, all within tau), sum|alpha_i| <= C*nu*n, and = C*nu*n when e > 0 (complementary slackness of the nu constraint)");
     ctx.assume("calibrated models: alpha / rho / weighted_sum bit-identical to the uncalibrated model of the same parameters; Pr in [0,1] and weakly monotone in the model's own decision value with a slack of 4 f32 ulp (Pr is computed in f32); a decision value of exactly 0 has no sign (either label accepted)");
     ctx.assume("layout family: every kernel entry is computed from two rows in an element order that does not depend on the memory layout, so everything published (alpha, rho, nsupport, Display, weighted_sum, labels, values, Pr) must be BIT-identical to the standard-layout run; targets are always passed contiguous (fit documents nothing about strided targets); no panic for non-contiguous records is documented for linfa-svm");
     ctx.assume("builder family: reference = a plain record updated with the rustdoc effect of each SvmParams setter (new(): C (1,1), eps 1e-7, no shrinking, linear kernel, Platt defaults; pos_neg_weights / c_svr / c_eps write C and clear nu, nu_weight / nu_svr / nu_eps write nu and clear C, the deprecated c_eps / nu_eps also write the solver eps; last write wins); the checked parameters' getters must equal it and the fit must be bit-identical to the fit of the canonical construction (kernel, problem type, eps, shrinking, platt) of the same final state");
+    ctx.assume("calling forms: every fit form must give the model of params.fit(&Dataset::new(records, targets)) bit for bit and every predict form the values of model.predict(&records); a fit that panics on targets in a non-contiguous layout (reversed / stepped views - supported target types - or the owned array map_targets derives from such a view) is reported as <problem>.fit.panics_on_non_contiguous_targets");
+    ctx.assume("sparse kernel: the solver's kernel matrix is K_ij where i = j or one point is among the 3 nearest (Euclidean, brute force) of the other, else 0; KKT is judged against that matrix, weighted_sum against the dense kernel function (as Svm::weighted_sum documents); a case with equidistant 3rd / 4th neighbours would be indeterminate");
     ctx.assume("stale buffers: predict_inplace into a buffer pre-filled with the opposite labels / a poison Pr / NaN, and into a buffer reused from a previous different batch, and single-sample predict, must reproduce the plain batch predict bit for bit");
     ctx.assume("termination: SolverState::solve is bounded by 10^7 iterations; a fit that reports 'Reached maximal iterations' and violates KKT is reported as not converged; a case that does not return within 900 s wall is reported as non-terminating");
 
@@ -534,8 +568,10 @@ fn main() {
     // ---------------- memory-layout family ----------------
     let layout_sizes: Vec<usize> = ctx.pick(vec![12], vec![12, 40]);
     let mut layout_cases = 0usize;
-    for d in data::catalogue(&layout_sizes) {
-        if !(d.id.starts_with("overlapping") || d.id.starts_with("imbalanced") || d.id.starts_with("generic_cloud") || d.id.starts_with("line_noisy") || d.id.starts_with("dup_conflict")) {
+    let mut layout_data = data::catalogue(&layout_sizes);
+    layout_data.extend([data::highdim_cls(20, 5), data::highdim_unl(20, 5), data::highdim_reg(20, 5)]);
+    for d in layout_data {
+        if !(d.id.starts_with("highdim") || d.id.starts_with("overlapping") || d.id.starts_with("imbalanced") || d.id.starts_with("generic_cloud") || d.id.starts_with("line_noisy") || d.id.starts_with("dup_conflict")) {
             continue;
         }
         let problems: Vec<Problem> = match d.kind {
@@ -552,6 +588,93 @@ fn main() {
             }
         }
     }
+    // ---------------- feature-count family: d in {4,5,6,7,9}, sub-unit scale, n > 16, every kernel, through the KKT oracles ----------------
+    let mut highdim_cases = 0usize;
+    let mut sparse_cases = 0usize;
+    {
+        let hn: Vec<usize> = ctx.pick(vec![20], vec![20, 40]);
+        for &n in &hn {
+            for dim in [4usize, 5, 6, 7, 9] {
+                for d in [data::highdim_cls(n, dim), data::highdim_unl(n, dim), data::highdim_reg(n, dim)] {
+                    let problems: Vec<Problem> = match d.kind {
+                        Kind::Classification => vec![Problem::CSvc { c_pos: 1.0, c_neg: 1.0 }, Problem::CSvc { c_pos: 1.0, c_neg: 10.0 }, Problem::NuSvc { nu: 0.5 }],
+                        Kind::Unlabelled => vec![Problem::OneClass { nu: 0.5 }],
+                        Kind::Regression => vec![Problem::EpsSvr { c: 1.0, eps_loss: 0.1 }, Problem::NuSvr { nu: 0.5, c: 1.0 }],
+                    };
+                    for k in &kernels {
+                        for p in &problems {
+                            for (e, f) in [(1e-3, "f64"), (1e-7, "f64"), (1e-3, "f32")] {
+                                cases.push(Case { dataset: d.id.clone(), x: d.x.clone(), labels: d.labels.clone(), targets: d.targets.clone(), probes: d.probes.clone(), kernel: k.clone(), problem: p.clone(), eps: e, float: f.into(), ..Default::default() });
+                                highdim_cases += 1;
+                            }
+                        }
+                    }
+                    // sparse kernel (symmetrised 3-nearest-neighbour graph): routes through the neighbour index with
+                    // more than 16 points and sub-unit distances, CsMat column() / diagonal()
+                    if dim == 4 || dim == 7 {
+                        for p in problems.iter().take(1) {
+                            for f in ["f64", "f32"] {
+                                cases.push(Case { dataset: d.id.clone(), x: d.x.clone(), labels: d.labels.clone(), targets: d.targets.clone(), probes: d.probes.clone(), kernel: Kern::SparseGaussian(0.5, 3), problem: p.clone(), eps: 1e-3, float: f.into(), ..Default::default() });
+                                sparse_cases += 1;
+                            }
+                        }
+                    }
+                }
+            }
+        }
+    }
+    // ---------------- class-ratio family for the calibrated models: both orientations of every imbalance ----------------
+    let mut ratio_cases = 0usize;
+    {
+        let rn: Vec<usize> = ctx.pick(vec![20], vec![20, 40]);
+        for &n in &rn {
+            // 1:4 / 4:1, 1:2 / 2:1, 65 %, 80 %, 95 % positives
+            let mut npos: Vec<usize> = vec![n / 5, n - n / 5, n / 3, n - n / 3, (n * 13) / 20, (n * 19) / 20];
+            npos.sort();
+            npos.dedup();
+            for np in npos {
+                let d = data::skewed(n, np);
+                for k in [Kern::Linear, Kern::Gaussian(0.5), Kern::Poly(1.0, 3.0)] {
+                    for p in [Problem::CSvc { c_pos: 1.0, c_neg: 1.0 }, Problem::CSvc { c_pos: 100.0, c_neg: 100.0 }, Problem::CSvc { c_pos: 1.0, c_neg: 10.0 }, Problem::NuSvc { nu: 0.1 }] {
+                        for f in floats {
+                            if f == "f32" && matches!(p, Problem::CSvc { c_pos, .. } if c_pos > 10.0) && k != Kern::Gaussian(0.5) {
+                                continue; // below the f32 resolution filter of the main sweep
+                            }
+                            cases.push(Case { dataset: d.id.clone(), x: d.x.clone(), labels: d.labels.clone(), targets: vec![], probes: d.probes.clone(), kernel: k.clone(), problem: p.clone(), eps: 1e-3, float: f.to_string(), ..Default::default() });
+                            ratio_cases += 1;
+                        }
+                    }
+                }
+            }
+        }
+    }
+    ctx.extra("class_ratio_family_cases", json!(ratio_cases));
+    // ---------------- calling-form family ----------------
+    let mut form_cases = 0usize;
+    {
+        let mut ds = vec![data::overlapping(12), data::cls_1d(12), data::highdim_cls(20, 5), data::generic_cloud(12), data::highdim_unl(20, 5), data::line_noisy(12), data::highdim_reg(20, 5)];
+        if thorough {
+            ds.extend([data::imbalanced(40), data::highdim_cls(40, 9), data::highdim_reg(40, 9)]);
+        }
+        for d in ds {
+            let problems: Vec<Problem> = match d.kind {
+                Kind::Classification => vec![Problem::CSvc { c_pos: 1.0, c_neg: 10.0 }, Problem::NuSvc { nu: 0.5 }],
+                Kind::Unlabelled => vec![Problem::OneClass { nu: 0.5 }],
+                Kind::Regression => vec![Problem::EpsSvr { c: 1.0, eps_loss: 0.1 }, Problem::NuSvr { nu: 0.5, c: 1.0 }],
+            };
+            for k in [Kern::Linear, Kern::Gaussian(0.5), Kern::Poly(1.0, 3.0)] {
+                for p in &problems {
+                    for f in floats {
+                        cases.push(Case { dataset: d.id.clone(), x: d.x.clone(), labels: d.labels.clone(), targets: d.targets.clone(), probes: d.probes.clone(), kernel: k.clone(), problem: p.clone(), eps: 1e-3, float: f.to_string(), family: "forms".into(), ..Default::default() });
+                        form_cases += 1;
+                    }
+                }
+            }
+        }
+    }
+    ctx.extra("feature_count_family_cases", json!(highdim_cases));
+    ctx.extra("sparse_kernel_cases", json!(sparse_cases));
+    ctx.extra("calling_form_family_cases", json!(form_cases));
     // ---------------- builder-history family ----------------
     let mut builder_cases = 0usize;
     {
